@@ -143,6 +143,7 @@ let emit (id : string) (_stream : string)
   let ipool = ref (Array.of_list (Stdlib.List.map (fun t -> { zero with text = t; str = Some t }) pool0)) in
   let parent = ref (Array.make (Stdlib.List.length pool0) (-1)) in
   let prev = ref None in
+  let mprev = ref None in
   let outs = ref [] in
   let first_obs = Hashtbl.create 16 in
   let rec go k trace recvs impl raw =
@@ -152,6 +153,15 @@ let emit (id : string) (_stream : string)
         let ir = (!ipool).(recv) in
         let iout = (match io with Some i -> Some (of_iobs i) | None -> None) in
         (* relational checks over two consecutive steps *)
+        (* the model's own verdict on the same relational checks *)
+        (match !prev, !mprev, (match mr with Res.Ok e -> Some (of_model e) | _ -> None) with
+         | Some (pop, pidx, _, _), Some (mpout : eobs), Some mo when pidx = recv ->
+           (match pop, op with
+            | Hist.OWrap _, Hist.OWrap _ when pop = op -> Printf.printf "%s M C06 %d 1 %s idem\n" id k (b2s (mo.text = mpout.text))
+            | Hist.OCollapse _, Hist.OCollapse _ when pop = op -> Printf.printf "%s M C07 %d 1 %s idem\n" id k (b2s (mo.text = mpout.text))
+            | _ -> ())
+         | _ -> ());
+        mprev := (match mr with Res.Ok e -> Some (of_model e) | _ -> None);
         (match !prev, iout with
          | Some (pop, pidx, (prevrecv : eobs), Some (pout : eobs)), Some o when pidx = recv ->
            (match pop, op with
@@ -199,7 +209,7 @@ let emit (id : string) (_stream : string)
             Printf.printf "%s V %s %d %s %s %s\n" id prop k (b2s g) (b2s ci) (if ci then "-" else clause ir op prop))
           (step_checks ir op iout);
         (* model's own outputs through the same checkers *)
-        Stdlib.List.iter (fun (prop, g, cm) -> Printf.printf "%s M %s %d %s %s\n" id prop k (b2s g) (b2s cm))
+        Stdlib.List.iter (fun (prop, g, cm) -> Printf.printf "%s M %s %d %s %s -\n" id prop k (b2s g) (b2s cm))
           (step_checks (of_model me) op mout);
         (* C05: commit splices exactly the selected region of the parent *)
         let par = (!parent).(recv) in
